@@ -315,7 +315,7 @@ def gen_decrypt_cases(ctx, quick):
     """list of dict(keyname, cls, ct, forced_em|None, em (expected block))"""
     rng = ctx.rng
     names = ['pem', 88, 96, 512, 1096, 1104] + ([] if quick else [1024, 2048, 3072])
-    reps = 1 if quick else 4
+    reps = 1 if quick else 3
     cases = []
     for name in names:
         key = get_key(name)
@@ -343,7 +343,7 @@ def gen_forced_groups(ctx, quick):
     for name in names:
         key = get_key(name)
         n, k = int(key.n), kbytes(key.n)
-        for _ in range((1 if name == 'pem' else 2) if quick else 6):
+        for _ in range((1 if name == 'pem' else 2) if quick else 4):
             while True:
                 ct = bytes(rng.randrange(256) for _ in range(k))
                 if int.from_bytes(ct, 'big') < n:
@@ -601,7 +601,8 @@ def run(ctx):
         lits = [decrypt_lit(get_key(c['key']), c['ct'], i) for c, i in zip(allc, alli)]
         (bad_model, bad_spec), errs = vlib.coq_bad_indices(
             'C11', IMPORTS, 'CaseT', ['chk_model', 'chk_spec'], lits,
-            shard=max(8, (len(lits) + 15) // 16) if quick else 80, preamble=PREAMBLE)
+            shard=max(8, (len(lits) + 15) // 16) if quick else 60, preamble=PREAMBLE,
+            timeout=900 if quick else 2700)
         ctx.count('decrypt-model-vs-impl(vm_compute)', len(lits), [('agree', len(lits) - len(bad_model))])
         for e in errs:
             tie_broken = 'case evaluation failed: ' + e[:400]
